@@ -580,6 +580,14 @@ check(const json& c)
       if (dms >= 0 && dms < env.pdi_data->get_max_segment_num())
         env.pdi_data->reduce_segment_range(-dms, dms);
       env.image = vg::make_image(c["image"], *env.pdi_data, 40);
+      // arc-corrected bins must lie inside the detector ring: ProjDataInfoCylindrical::get_tantheta asserts R >= |s|
+      // (sqrt of a negative number otherwise).  The generator keeps them inside; a hand-made case is rejected.
+      {
+        const ProjDataInfo& p = *env.pdi_data;
+        const float smax_mm = std::max(std::fabs(p.get_s(Bin(0, 0, 0, p.get_min_tangential_pos_num()))), std::fabs(p.get_s(Bin(0, 0, 0, p.get_max_tangential_pos_num()))));
+        if (!(smax_mm < 0.98F * env.sc->get_effective_ring_radius()))
+          return Result::reject("tangential positions reach beyond the detector ring");
+      }
     }
   catch (const stir_verif::AssertionFailure&)
     {
@@ -1014,6 +1022,16 @@ gen(Src& s, int size)
         }
       else
         p = vg::gen_pdi(s, *sc, po);
+      if (p["arccorr"].get<bool>())
+        {
+          // arc-corrected bins have to stay inside the ring (assert(R >= fabs(get_s(bin))) in ProjDataInfoCylindrical::get_tantheta)
+          const double r_eff = sc->get_effective_ring_radius(), bs = sc->get_default_bin_size();
+          const int max_t = 2 * int(std::floor(0.95 * r_eff / bs)) - 1;
+          if (max_t < 2)
+            p["arccorr"] = false;
+          else
+            p["tang"] = std::min(p["tang"].get<int>(), max_t);
+        }
       if (comp)
         {
           // BinNormalisationPETFromComponents: "does not handle compressed projection data (i.e. span etc)"; its set_up goes through
